@@ -23,7 +23,14 @@ type GlobCase struct {
 	// ViaChain: the pattern tasks are not requested themselves but reached through two levels
 	// of task dependencies (top -> mid -> pattern tasks)
 	ViaChain bool `json:"via_chain,omitempty"`
+	// Links: relative path -> "file" or "dir". Each is a symbolic link to a file or to a directory
+	// (holding a.x, .h.x and sub/b.x) kept outside the tree, so it is never dangling and never a cycle.
+	// A linked file is a file; the files below a linked directory have relative paths like any other.
+	Links map[string]string `json:"links,omitempty"`
 }
+
+// linkPool is used by the enumerated link cases.
+var linkPool = [][2]string{{"lnk.x", "file"}, {"src/lf.x", "file"}, {"ld", "dir"}, {"src/ldd", "dir"}, {".hl", "dir"}}
 
 var globPool = []string{
 	"a.x", "z.x", "-first.x", ".hid.x", ".env", ".git/a.x", "src/a.x", "src/.h.x", "src/.d/a.x", "src/sub/b.x", "other.y", "emptyd/",
@@ -74,6 +81,36 @@ func execGlob(s *ev.Shard, root string, c GlobCase) *rp.Fail {
 			return &rp.Fail{Sig: "harness", Msg: err.Error()}
 		}
 	}
+	ext := root + "_ext"
+	_ = os.RemoveAll(ext)
+	if len(c.Links) > 0 {
+		defer os.RemoveAll(ext)
+		names := make([]string, 0, len(c.Links))
+		for n := range c.Links {
+			names = append(names, n)
+		}
+		sort.Strings(names)
+		for i, n := range names {
+			target := filepath.Join(ext, fmt.Sprintf("t%d.x", i))
+			if c.Links[n] == "dir" {
+				target = filepath.Join(ext, fmt.Sprintf("d%d", i))
+				for _, f := range []string{"a.x", ".h.x", "sub/b.x"} {
+					if err := writeFile(target, f, "x"); err != nil {
+						return &rp.Fail{Sig: "harness", Msg: err.Error()}
+					}
+				}
+			} else if err := writeFile(ext, fmt.Sprintf("t%d.x", i), "x"); err != nil {
+				return &rp.Fail{Sig: "harness", Msg: err.Error()}
+			}
+			lp := filepath.Join(root, filepath.FromSlash(n))
+			if err := os.MkdirAll(filepath.Dir(lp), 0o755); err != nil {
+				return &rp.Fail{Sig: "harness", Msg: err.Error()}
+			}
+			if err := os.Symlink(target, lp); err != nil {
+				return &rp.Fail{Sig: "harness", Msg: err.Error()}
+			}
+		}
+	}
 	src := c.Source()
 	if err := writeFile(root, "spokfile", src); err != nil {
 		return &rp.Fail{Sig: "harness", Msg: err.Error()}
@@ -102,7 +139,7 @@ func execGlob(s *ev.Shard, root string, c GlobCase) *rp.Fail {
 		}
 		rec := &recorder{count: map[string]int{}}
 		if _, err := sf.Run(iostream.Null(), rec, true, tasks...); err != nil {
-			return &rp.Fail{Sig: "expansion-error", Size: size, Msg: fmt.Sprintf("tree %v: running the tasks that use the patterns failed: %v", c.Paths, err)}
+			return &rp.Fail{Sig: "expansion-error", Size: size, Msg: fmt.Sprintf("tree %v links %v: running the tasks that use the patterns failed: %v", c.Paths, c.Links, err)}
 		}
 		for i := range c.Patterns {
 			if rec.count[patternTaskName(i)] == 0 {
@@ -114,16 +151,16 @@ func execGlob(s *ev.Shard, root string, c GlobCase) *rp.Fail {
 			var files []string
 			seen := map[string]bool{}
 			for _, abs := range sf.Globs[pat] {
-				st, err := os.Lstat(abs)
+				st, err := os.Stat(abs)
 				if err != nil {
-					return &rp.Fail{Sig: "expansion-names-missing-path", Size: size, Msg: fmt.Sprintf("tree %v: pattern %q expanded to %q which does not exist", c.Paths, pat, abs)}
+					return &rp.Fail{Sig: "expansion-names-missing-path", Size: size, Msg: fmt.Sprintf("tree %v links %v: pattern %q expanded to %q which does not exist", c.Paths, c.Links, pat, abs)}
 				}
 				if st.IsDir() {
 					continue
 				}
 				rel, err := filepath.Rel(root, abs)
 				if err != nil || strings.HasPrefix(rel, "..") {
-					return &rp.Fail{Sig: "expansion-outside-root", Size: size, Msg: fmt.Sprintf("tree %v: pattern %q expanded to %q outside the spokfile directory", c.Paths, pat, abs)}
+					return &rp.Fail{Sig: "expansion-outside-root", Size: size, Msg: fmt.Sprintf("tree %v links %v: pattern %q expanded to %q outside the spokfile directory", c.Paths, c.Links, pat, abs)}
 				}
 				rel = filepath.ToSlash(rel)
 				if !seen[rel] {
@@ -139,7 +176,7 @@ func execGlob(s *ev.Shard, root string, c GlobCase) *rp.Fail {
 				if missing := minus(want, files); len(missing) > 0 {
 					sig = "glob-omits-matching-file"
 				}
-				return &rp.Fail{Sig: sig, Size: size, Msg: fmt.Sprintf("tree %v: pattern %q denotes %v but spok expanded it to %v (expansion %d)", c.Paths, pat, want, files, round+1)}
+				return &rp.Fail{Sig: sig, Size: size, Msg: fmt.Sprintf("tree %v links %v: pattern %q denotes %v but spok expanded it to %v (expansion %d)", c.Paths, c.Links, pat, want, files, round+1)}
 			}
 			if s != nil && round == 0 {
 				hidden := false
@@ -151,7 +188,10 @@ func execGlob(s *ev.Shard, root string, c GlobCase) *rp.Fail {
 					}
 				}
 				if hidden && len(want) > 0 {
-					s.NonTrivial(strings.Join(c.Paths, ",") + "\x00" + pat + fmt.Sprint(c.ViaChain))
+					s.NonTrivial(strings.Join(c.Paths, ",") + "\x00" + pat + fmt.Sprint(c.ViaChain, c.Links))
+				}
+				if len(c.Links) > 0 {
+					s.Class("tree_with_symbolic_links")
 				}
 				if len(want) > 0 {
 					s.Class("pattern_with_matches")
@@ -165,7 +205,7 @@ func execGlob(s *ev.Shard, root string, c GlobCase) *rp.Fail {
 		} else {
 			for _, pat := range c.Patterns {
 				if strings.Join(first[pat], "\x00") != strings.Join(got[pat], "\x00") {
-					return &rp.Fail{Sig: "expansion-not-repeatable", Size: size, Msg: fmt.Sprintf("tree %v: pattern %q expanded to %v first and %v on the second expansion of the unchanged tree", c.Paths, pat, first[pat], got[pat])}
+					return &rp.Fail{Sig: "expansion-not-repeatable", Size: size, Msg: fmt.Sprintf("tree %v links %v: pattern %q expanded to %v first and %v on the second expansion of the unchanged tree", c.Paths, c.Links, pat, first[pat], got[pat])}
 				}
 			}
 		}
@@ -187,6 +227,20 @@ func execGlob(s *ev.Shard, root string, c GlobCase) *rp.Fail {
 			}
 		}
 	}
+	// with links in the tree, prefer a victim that is (or lies below) a link
+	viaLink := ""
+	for _, pat := range c.Patterns {
+		for _, f := range denotes[pat] {
+			for l := range c.Links {
+				if (f == l || strings.HasPrefix(f, l+"/")) && (viaLink == "" || f < viaLink) {
+					viaLink = f
+				}
+			}
+		}
+	}
+	if viaLink != "" {
+		victim = viaLink
+	}
 	if victim == "" {
 		return nil
 	}
@@ -201,7 +255,7 @@ func execGlob(s *ev.Shard, root string, c GlobCase) *rp.Fail {
 		}
 		rec := &recorder{count: map[string]int{}}
 		if _, err := sf.Run(iostream.Null(), rec, force, tasks...); err != nil {
-			return nil, &rp.Fail{Sig: "expansion-error", Size: size, Msg: fmt.Sprintf("tree %v: run failed: %v", c.Paths, err)}
+			return nil, &rp.Fail{Sig: "expansion-error", Size: size, Msg: fmt.Sprintf("tree %v links %v: run failed: %v", c.Paths, c.Links, err)}
 		}
 		ran := map[string]bool{}
 		for name, n := range rec.count {
@@ -227,9 +281,9 @@ func execGlob(s *ev.Shard, root string, c GlobCase) *rp.Fail {
 		}
 		switch {
 		case has && !ran[name]:
-			return &rp.Fail{Sig: "glob-omits-matching-file", Size: size, Msg: fmt.Sprintf("tree %v: %s matches pattern %q and was edited, but the task depending on that pattern was skipped when run together with the tasks of %d other patterns", c.Paths, victim, pat, len(c.Patterns)-1)}
+			return &rp.Fail{Sig: "glob-omits-matching-file", Size: size, Msg: fmt.Sprintf("tree %v links %v: %s matches pattern %q and was edited, but the task depending on that pattern was skipped when run together with the tasks of %d other patterns", c.Paths, c.Links, victim, pat, len(c.Patterns)-1)}
 		case !has && len(denotes[pat]) > 0 && ran[name]:
-			return &rp.Fail{Sig: "glob-includes-non-matching", Size: size, Msg: fmt.Sprintf("tree %v: only %s was edited, which pattern %q does not match, yet the task depending on that pattern ran again", c.Paths, victim, pat)}
+			return &rp.Fail{Sig: "glob-includes-non-matching", Size: size, Msg: fmt.Sprintf("tree %v links %v: only %s was edited, which pattern %q does not match, yet the task depending on that pattern ran again", c.Paths, c.Links, victim, pat)}
 		}
 	}
 	return nil
